@@ -8,7 +8,7 @@ from hypothesis import strategies as st
 
 from .. import core, engine, harvest, progspace, runner
 from . import _prog
-from .c03 import ADDERS, MANIFESTS, manifest_bytes
+from .c03 import ADDERS, MANIFESTS, UNUSABLE, manifest_bytes, manifest_files
 
 ID = "C04"
 LEVEL = "exploration"
@@ -61,10 +61,8 @@ def normalise(rep):
 
 
 def handle(cid, kind, rendered, stats, opts, manifest, dirstyle):
-    extra = {}
-    mkind, mvar = manifest
-    if mkind != "none":
-        extra[mkind] = manifest_bytes(mkind, mvar)
+    mkind, mvar = manifest[:2]
+    extra = manifest_files(manifest)
     with runner.scratch("c04") as root:
         proj, rels, res_argv = engine.build_project(root, [cid], rendered, extra)
         d = {"abs": str(proj), "rel": "proj", "dot": "./proj", "slash": "proj/"}[dirstyle]
@@ -75,7 +73,7 @@ def handle(cid, kind, rendered, stats, opts, manifest, dirstyle):
         mid = runner.snapshot(root / "proj")
         r2 = runner.run_cli(base + ["--output", str(root / "real.codetf")], cwd=str(root), output=root / "real.codetf", timeout=900)
         after = runner.snapshot(root / "proj")
-    labels = ["kind:" + kind, "codemod:" + cid, "manifest:" + mkind + ("/" + mvar if mkind != "none" else ""), "dir:" + dirstyle] + ["opt:" + o for o in opts if o.startswith("--")]
+    labels = ["kind:" + kind, "codemod:" + cid, "manifest:" + mkind + ("/" + mvar if mkind != "none" else ""), "dir:" + dirstyle] + (["unusable-manifest-first"] if len(manifest) > 2 and manifest[2] else []) + ["opt:" + o for o in opts if o.startswith("--")]
     key = [cid, core.sha(json.dumps(sorted((k, core.sha(v[1]) if v[0] == "f" else v[0]) for k, v in before.items()))), opts, dirstyle]
     feats = sorted(set(l for _, rd in rendered for l in rd["labels"] if l.startswith(("op:", "fop:")))) + (["manifest:" + mkind, "manifest-variant:" + mvar] if mkind != "none" else [])
     case = {"codemod": cid, "programs": [c for c, _ in rendered], "opts": opts, "manifest": manifest, "dirstyle": dirstyle}
@@ -89,6 +87,8 @@ def handle(cid, kind, rendered, stats, opts, manifest, dirstyle):
     real_created, real_deleted, real_modified = runner.snap_diff(mid, after)
     nontriv = bool(real_modified)
     deep = any(m.rsplit("/", 1)[-1] in MANIFESTS for m in real_modified)
+    if any(m.rsplit("/", 1)[-1] in MANIFESTS for m in modified):
+        feats = feats + ["manifest-written-in-dry-run"]
     stats.case(key, nontriv, labels + (["real-run-changed-files"] if nontriv else []) + (["deep:manifest-changed"] if deep else []),
                sample={"codemod": cid, "opts": opts, "manifest": manifest, "dir": dirstyle, "real_run_modified": real_modified})
     if created or deleted or modified:
@@ -124,7 +124,8 @@ def run_shard(spec):
         strat = st.tuples(
             st.lists(progspace.program_case(cid, seeds, sast, max_parts=2), min_size=spec["batch"], max_size=spec["batch"]),
             options(),
-            st.tuples(st.sampled_from(sorted(MANIFESTS)), st.sampled_from(["lf", "crlf", "nofinalnl", "trailing-blank"])) if cid in adders else
+            st.tuples(st.sampled_from(sorted(MANIFESTS)), st.sampled_from(["lf", "crlf", "nofinalnl", "trailing-blank"]),
+                      st.one_of(st.just([]), st.lists(st.sampled_from(sorted(UNUSABLE)), min_size=1, max_size=2, unique=True))) if cid in adders else
             st.sampled_from([("none", "lf"), ("none", "lf"), ("requirements.txt", "lf")]),
             st.sampled_from(["abs", "abs", "rel", "dot", "slash"]),
         )
